@@ -5,6 +5,17 @@ block ids are canonical), TLC-generated behaviours replayed on the real chainntn
 channeldb.HeightHintCache (bolt), a free-running seeded driver with a larger safety limit / more
 clients / longer histories, all traces validated by TxNotifierTrace.
 
+Parts (every one: model checked, behaviours replayed on the real code, traces validated, negative control):
+  txnotifier  TxNotifier.tla, requests of kind 0 ({txid, script} / {outpoint, script})
+              (+ the backend's own RelevantTx hand-over, ProcessRelevantSpendTx: actions RelevantSpend / -Ahead)
+  kinds       the same module with every kind of request registered at once (script-only conf requests,
+              taproot-outpoint and script-only spend requests): one input / output of a block fulfils several
+              registered requests, each judged on its own               (keys txnotifier-kinds:...)
+  catchup     CatchUp.tla: the layer that feeds the TxNotifier - the dispatcher of btcd/bitcoind and
+              HandleMissedBlocks / RewindChain / GetClientMissedBlocks over a backend that keeps reorged
+              blocks; outages of any length (below and above chainntnfs.ReorgSafetyLimit) with reorgs
+              within the safety limit                                   (keys catchup:...)
+
 Finding F10 (orphaned rescan details): a directed part replays two fixed schedules
 (spec/TxNotifier/directed) and decides which model the code follows:
   Repaired=TRUE  accepted -> the tree is repaired; every part then also allows orphan rescans
@@ -13,13 +24,17 @@ Finding F10 (orphaned rescan details): a directed part replays two fixed schedul
 """
 import copy
 import os
+import threading
 from .. import core
 from ..core import Inconclusive
 
 SPEC = os.path.join(core.VERIF, "spec", "TxNotifier")
 DIRECTED = os.path.join(SPEC, "directed")
 LEVEL = "model_checking"
-HARNESS = ["chainntnfs/c14_test.go"]
+HARNESS = ["chainntnfs/c14_test.go", "chainntnfs/c14_catchup_test.go", "chainntnfs/c14_export_test.go"]
+DIRECTED_CU = os.path.join(SPEC, "directed_catchup")
+# every request id of the two-outpoint universe (conf 1..4*NOuts, spend 1..3*NOuts)
+ALLKINDS2 = {"ConfTargets": "{1, 2, 3, 4, 5, 6, 7, 8}", "SpendTargets": "{1, 2, 3, 4, 5, 6}"}
 
 # None: decided by the directed replay (which model the code conforms to);
 # True / False: force the spec variant (Repaired constant of TxNotifier.tla).
@@ -57,15 +72,24 @@ def run_exec(ck, test, env, name, timeout=1500):
     return trace, recs
 
 
+REPORT_LOCK = threading.Lock()
+
+
 def report(ck, v, recs, what, keyprefix="txnotifier"):
+    with REPORT_LOCK:
+        _report(ck, v, recs, what, keyprefix)
+
+
+def _report(ck, v, recs, what, keyprefix):
     a, b = core.slice_trace(recs, v["line"] or 1, is_reset)
     one = os.path.join(ck.out, "failing_trace.ndjson")
     core.write_ndjson(one, recs[a:b])
     bad = recs[min((v["line"] or 1) - 1, len(recs) - 1)]
     inv = (v["invariant"] or "").replace("invariant ", "").replace("property ", "")
-    brief = {k: bad.get(k) for k in ("a", "i", "t", "n", "hint", "inc", "ev", "chint", "shint", "hd", "err", "panic")}
+    brief = {k: bad.get(k) for k in ("a", "i", "t", "n", "hint", "inc", "blk", "ev", "chint", "shint", "hd", "err", "panic",
+                                     "tip", "ret", "missed", "hmerr") if k in bad}
     ck.violation("%s:%s:%s" % (keyprefix, inv or "rejected", bad.get("a")),
-                 "real TxNotifier deviates from spec/TxNotifier in %s (%s) at line %s of %s: %s" % (
+                 "real chainntnfs code deviates from spec/TxNotifier in %s (%s) at line %s of %s: %s" % (
                      what, v["invariant"], v["line"], recs[a].get("file"), str(brief)[:600]),
                  files={"trace.ndjson": one}, text=v["cex"])
 
@@ -83,18 +107,21 @@ def directed(ck):
         p = os.path.join(ck.out, "directed_%s.ndjson" % name)
         core.write_ndjson(p, tr)
         v = ck.validate(SPEC, "TxNotifierTrace", "TxNotifierTrace.cfg", p,
-                        constants={"OrphanRescan": "TRUE", "Repaired": "TRUE"}, name="val_dir_%s_repaired" % name)
+                        constants=dict(ALLKINDS2, OrphanRescan="TRUE", Repaired="TRUE"), name="val_dir_%s_repaired" % name)
+        tool_ok(v, "directed " + name)
         ck.cov["traces_validated_against_impl"] += 1
         if v["ok"]:
             continue
         if "orphan" not in name:
             # other directed schedules (backend-ahead answers ...): any rejection is a deviation
-            report(ck, v, tr, "directed schedule " + name, keyprefix="txnotifier-directed")
+            report(ck, v, tr, "directed schedule " + name,
+                   keyprefix="txnotifier-kinds-directed" if "kinds" in name else "txnotifier-directed")
             continue
         repaired = False
         # is it exactly the modelled defect?  (conformance to the as-built model, no property invariants)
         w = ck.validate(SPEC, "TxNotifierTrace", "TxNotifierTraceConform.cfg", p,
-                        constants={"OrphanRescan": "TRUE", "Repaired": "FALSE"}, name="val_dir_%s_asbuilt" % name)
+                        constants=dict(ALLKINDS2, OrphanRescan="TRUE", Repaired="FALSE"), name="val_dir_%s_asbuilt" % name)
+        tool_ok(w, "directed " + name)
         bad = tr[min((v["line"] or 1) - 1, len(tr) - 1)]
         if w["ok"]:
             seen = []
@@ -118,7 +145,8 @@ def directed(ck):
     return repaired
 
 
-def corrupt_control(ck, recs, consts, tag):
+def corrupt_control(ck, recs, consts, tag, module="TxNotifierTrace", cfg="TxNotifierTrace.cfg", extra=(),
+                    only_extra=False, limit=None):
     """Negative controls: corrupt one recorded field of a valid trace; validation must reject each."""
     traces = split_traces(recs)
 
@@ -163,19 +191,27 @@ def corrupt_control(ck, recs, consts, tag):
                     e[2], e[6] = 0, 0
                     return
         muts.append(("reorg notice dropped", tr, drop_reorg))
+    if only_extra:
+        muts = []
+    for what, pred, f in extra:
+        tr, k = pick(pred)
+        if tr:
+            muts.append((what, tr, (lambda t, k=k, f=f: f(t[k]))))
     if len(muts) < 2:
         raise Inconclusive("no suitable events for the negative controls in " + tag)
+    muts = muts[:limit] if limit else muts
     for n, (what, tr, f) in enumerate(muts):
         bad = copy.deepcopy(tr)
         f(bad)
         p = os.path.join(ck.out, "control_%s_%d.ndjson" % (tag, n))
         core.write_ndjson(p, bad)
-        v = ck.validate(SPEC, "TxNotifierTrace", "TxNotifierTrace.cfg", p, constants=consts,
-                        name="control_%s_%d" % (tag, n))
+        v = ck.validate(SPEC, module, cfg, p, constants=consts, name="control_%s_%d" % (tag, n))
+        if not v["ok"] and not v["invariant"]:
+            raise Inconclusive("negative control %s: validator ended without a verdict" % what)
         if v["ok"]:
             raise Inconclusive("negative control accepted (%s): trace validation is not binding" % what)
         ck.cov.setdefault("negative_controls", []).append(
-            dict(mutation=what, rejected_by=v["invariant"], at_line=v["line"]))
+            dict(part=tag, mutation=what, rejected_by=v["invariant"], at_line=v["line"]))
 
 
 def account(ck, recs):
@@ -193,7 +229,7 @@ def account(ck, recs):
                 nontrivial = nontrivial or e[0] != -1 or e[2] != 0 or e[4] != -1 or e[6] != 0
             ntf["historical"] += r["hd"][0]
         if nontrivial:
-            distinct.add(core.sha(str([(r["a"], r["i"], r["t"], r["n"], r["hint"], tuple(r["inc"])) for r in tr[1:]])))
+            distinct.add(core.sha(str([(r["a"], r["i"], r["t"], r["n"], r["hint"], tuple(r["inc"]), r.get("blk")) for r in tr[1:]])))
     ck.cov["distinct_nontrivial"] += len(distinct)
     tot = ck.cov.setdefault("notifications_observed", {})
     for k, x in ntf.items():
@@ -202,42 +238,55 @@ def account(ck, recs):
     ck.cov["evaluations"] += len(recs)
 
 
-def validate_batches(ck, recs, consts, what, name):
+def tool_ok(v, what):
+    """A validator that was killed (OOM killer, signal) neither accepted nor rejected anything."""
+    if not v["ok"] and not v["invariant"]:
+        raise Inconclusive("trace validator ended without a verdict (%s): rc=%s\n%s" % (
+            what, v["res"].rc, (v["res"].out or "")[-1500:]))
+    if v["ok"] and v["res"].distinct < v["lines"]:
+        raise Inconclusive("trace validator accepted but explored %d states for %d lines (%s)" % (
+            v["res"].distinct, v["lines"], what))
+    return v
+
+
+def validate_batches(ck, recs, consts, what, name, module="TxNotifierTrace", cfg="TxNotifierTrace.cfg",
+                     keyprefix="txnotifier"):
     ok = True
     for bi, batch in enumerate(core.split_batches(recs, is_reset, max_bytes=12_000_000)):
         p = os.path.join(ck.out, "%s_batch%d.ndjson" % (name, bi))
         core.write_ndjson(p, batch)
-        v = ck.validate(SPEC, "TxNotifierTrace", "TxNotifierTrace.cfg", p, constants=consts,
-                        name="%s_%d" % (name, bi), timeout=2400)
+        v = tool_ok(ck.validate(SPEC, module, cfg, p, constants=consts, name="%s_%d" % (name, bi), timeout=2400), name)
         if not v["ok"]:
-            report(ck, v, batch, what)
+            report(ck, v, batch, what, keyprefix=keyprefix)
             ok = False
             break
     return ok
 
 
-def run(ck):
-    thorough = ck.tier == "thorough"
+SHOW = ("a", "i", "t", "n", "hint", "inc", "ev", "chint", "shint", "hd")
 
-    # ---- (0) directed part: F10 schedules; decides the spec variant
-    repaired = directed(ck)
-    if REPAIRED is not None:
-        repaired = REPAIRED
-    R = {"Repaired": TLA(repaired), "OrphanRescan": TLA(repaired)}
-    ck.notes.append("spec variant: Repaired=%s OrphanRescan=%s (%s)" % (
-        R["Repaired"], R["OrphanRescan"],
-        "tree conforms to the repaired model" if repaired else "as-built model; orphan rescans excluded from the generated parts"))
 
-    # ---- (a) model checking
-    def mc(what, name, **c):
+def model_checks(ck, R, thorough, repaired):
+    """(a) every exhaustive run (one thread; nothing here depends on the Go code)."""
+    # quick: 4 workers next to the generators; thorough: the exhaustive runs are the long pole (about 11 M distinct
+    # states in all), 8 workers
+    W = 8 if thorough else 4
+
+    def mc(what, name, module="TxNotifierMC", cfg="TxNotifierMC.cfg", **c):
         consts = dict(R)
         consts.update(c)
-        return ck.model_check(SPEC, "TxNotifierMC", "TxNotifierMC.cfg", what, constants=consts, name=name,
-                              workers=8, timeout=3600)
+        r = ck.model_check(SPEC, module, cfg, what, constants=consts, name=name, workers=W, timeout=3600)
+        if not r.ok:
+            raise Inconclusive("TLC ended without completing %s (killed?): rc=%s\n%s" % (name, r.rc, (r.out or "")[-1500:]))
+        return r
 
     conf2 = dict(NOuts=1, Incl="Incl1", ConfTargets="{1, 2}", SpendTargets="{}")
     spend1 = dict(NOuts=1, Incl="Incl1", ConfTargets="{}", SpendTargets="{1}")
     mixed = dict(NOuts=1, Incl="Incl1", ConfTargets="{1}", SpendTargets="{1}")
+    # request kinds of one outpoint / one transaction, registered side by side
+    skinds = dict(NOuts=1, Incl="Incl1", ConfTargets="{}", SpendTargets="{1, 2, 3}")
+    ckinds = dict(NOuts=1, Incl="Incl1", ConfTargets="{1, 3}", SpendTargets="{}")
+    cu = dict(module="CatchUpMC", cfg="CatchUpMC.cfg")
     if os.environ.get("VERIF_C14_NOMC"):
         # development / mutation-control runs: the model checking part does not depend on the Go code
         ck.notes.append("VERIF_C14_NOMC set: only the small spend model was checked in this run")
@@ -256,6 +305,14 @@ def run(ck):
            MaxLen=4, MaxRegs=2, AllHints="FALSE", NOuts=2, Incl="Incl2", ConfTargets="{}", SpendTargets="{1, 2}")
         mc("confirmation + spend of the same outpoint, chain<=4, 2 clients, every hint", "mc_mixed4",
            MaxLen=4, MaxRegs=2, AllHints="TRUE", **mixed)
+        mc("spend request kinds (outpoint+script, taproot outpoint, script only) of one outpoint, chain<=4, 2 clients",
+           "mc_skinds4", MaxLen=4, MaxRegs=2, AllHints="FALSE", **skinds)
+        mc("conf request kinds (txid+script, script only) of one tx, chain<=4, 2 clients, depths 1-2", "mc_ckinds4",
+           MaxLen=4, MaxRegs=2, AllHints="FALSE", MaxConfs=2, **ckinds)
+        mc("catch-up layer: confirmations, 1 client, backend <=3 ahead, chain<=3, 5 blocks, safety 2", "mc_catchup_conf",
+           MaxLen=3, MaxBlocks=5, **cu)
+        mc("catch-up layer: spends (2 conflicting spenders), 1 client, backend <=3 ahead, chain<=3, 4 blocks, safety 2",
+           "mc_catchup_spend", Incl="Incl1", ConfTargets="{}", SpendTargets="{1}", MaxLen=3, MaxBlocks=4, **cu)
     else:
         mc("confirmations, conflicting pair, chain<=3, 2 clients, depths 1-2", "mc_conf3",
            MaxLen=3, MaxRegs=2, AllHints="FALSE", MaxConfs=2, **conf2)
@@ -263,11 +320,15 @@ def run(ck):
            MaxLen=4, MaxRegs=2, AllHints="TRUE", **spend1)
         mc("confirmation + spend of the same outpoint, chain<=3, 2 clients", "mc_mixed3",
            MaxLen=3, MaxRegs=2, AllHints="FALSE", **mixed)
+        mc("spend request kinds (outpoint+script, taproot outpoint, script only) of one outpoint, chain<=3, 2 clients",
+           "mc_skinds3", MaxLen=3, MaxRegs=2, AllHints="FALSE", **skinds)
+        mc("catch-up layer: confirmations, 1 client, backend <=3 ahead, chain<=3, 4 blocks, safety 2", "mc_catchup_conf",
+           MaxLen=3, MaxBlocks=4, **cu)
     ck.cov["exhaustive"] = True
 
     # the defect at model level: as-built model + orphan rescans must violate, repaired model must not
     r = ck.model_check(SPEC, "TxNotifierMC", "TxNotifierMC.cfg", "F10 model: as built, orphan rescans allowed",
-                       must_hold=False, name="mc_f10_asbuilt", workers=8, timeout=1200,
+                       must_hold=False, name="mc_f10_asbuilt", workers=W, timeout=1200,
                        constants=dict(Repaired="FALSE", OrphanRescan="TRUE", MaxLen=3, MaxRegs=2, AllHints="FALSE", **conf2))
     ck.cov["f10_model"] = dict(as_built_with_orphan_rescans=r.violation or "no violation")
     if not r.violation:
@@ -275,72 +336,223 @@ def run(ck):
     if thorough and not repaired:
         for u, nm in ((conf2, "conf"), (spend1, "spend")):
             r = ck.model_check(SPEC, "TxNotifierMC", "TxNotifierMC.cfg", "F10 repair shape (%s): tracked without subscriber" % nm,
-                               name="mc_f10_repaired_" + nm, workers=8, timeout=2400,
+                               name="mc_f10_repaired_" + nm, workers=W, timeout=2400,
                                constants=dict(Repaired="TRUE", OrphanRescan="TRUE", MaxLen=3 if nm == "conf" else 4,
                                               MaxRegs=2, AllHints="FALSE", MaxConfs=2, **u))
         ck.cov["f10_model"]["repaired_with_orphan_rescans"] = "holds"
 
-    # ---- (b) generate, (c) replay on the real notifier, (d) validate
+
+CU_TRACE = dict(module="CatchUpTrace", cfg="CatchUpTrace.cfg")
+
+
+def cu_controls():
+    """Negative controls of the catch-up part: (what, line predicate, corruption of that line)."""
+    def tip_up(r):
+        r["tip"] += 1
+
+    def missed_short(r):
+        r["missed"] = r["missed"][:-1]
+
+    def ret_height(r):
+        r["ret"][2] += 1
+
+    def cm_short(r):
+        r["cm"] = r["cm"][1:]
+
+    def drop_reorg(r):
+        for e in r["ev"]:
+            if e[2] != 0 or e[6] != 0:
+                e[2], e[6] = 0, 0
+                return
+    return [
+        ("RewindStep: recorded height one too high", lambda r: r["a"] == "RewindStep", tip_up),
+        ("RewindDone: last missed block dropped", lambda r: r["a"] == "RewindDone" and len(r["missed"]) > 0, missed_short),
+        ("RewindDone: returned best height +1", lambda r: r["a"] == "RewindDone" and r["ret"][1] == 0, ret_height),
+        ("GetClientMissedBlocks: first block dropped", lambda r: r["a"] == "ClientMissed" and len(r["cm"]) > 0, cm_short),
+        ("RewindStep: reorg notice dropped",
+         lambda r: r["a"] == "RewindStep" and any(e[2] != 0 or e[6] != 0 for e in r["ev"]), drop_reorg),
+    ]
+
+
+def run(ck):
+    from concurrent.futures import ThreadPoolExecutor
+    thorough = ck.tier == "thorough"
+    only = set(filter(None, os.environ.get("VERIF_C14_PARTS", "").split(",")))   # development: run only these parts
+    want = lambda part: not only or part in only
+    if only:
+        ck.notes.append("VERIF_C14_PARTS=%s: only these parts were run" % ",".join(sorted(only)))
+
+    # ---- (0) directed part: F10 schedules; decides the spec variant
+    repaired = directed(ck)
+    if REPAIRED is not None:
+        repaired = REPAIRED
+    R = {"Repaired": TLA(repaired), "OrphanRescan": TLA(repaired)}
+    ck.notes.append("spec variant: Repaired=%s OrphanRescan=%s (%s)" % (
+        R["Repaired"], R["OrphanRescan"],
+        "tree conforms to the repaired model" if repaired else "as-built model; orphan rescans excluded from the generated parts"))
+
+    # ---- (a) model checking (one thread, 4 TLC workers) and (b) generation (1 worker each) run side by side; the
+    # main thread (c) replays on the real code, one executor at a time, and hands every recorded trace to the pool
+    # for (d) validation and the negative controls (1 TLC worker each)
+    pool = ThreadPoolExecutor(max_workers=9)
+    fut_mc = pool.submit(model_checks, ck, R, thorough, repaired) if want("mc") else None
+    judges = []
+
+    def gen(module, cfg, num, depth, name, **consts):
+        def job():
+            files = ck.generate(SPEC, module, cfg, num, depth, constants=dict(consts, **R), name=name, timeout=3600)
+            if len(files) < num // 2:
+                raise Inconclusive("generator %s wrote %d of %d behaviours (killed?)" % (name, len(files), num))
+            return files
+        return pool.submit(job)
+
+    def judge(fn, *a):
+        judges.append(pool.submit(fn, ck, R, *a))
+
     num, maxhist = (500, 24) if thorough else (100, 20)
-    files = ck.generate(SPEC, "TxNotifierGen", "TxNotifierGen.cfg", num, maxhist + 4,
-                        constants=dict(MaxHist=maxhist, **R), name="gen", timeout=1500)
-    sched = os.path.dirname(files[0])
-    trace, recs = run_exec(ck, "TestVerifC14Replay",
-                           {"VERIF_SCHED": sched, "VERIF_NOUTS": 2, "VERIF_MAXREGS": 4, "VERIF_SAFETY": 3}, "exec_gen")
-    account(ck, recs)
-    if validate_batches(ck, recs, dict(R), "a TLC-generated behaviour", "val_gen"):
-        corrupt_control(ck, recs, dict(R), "gen")
-    ck.cov["samples"].append({"generated": [{k: r[k] for k in ("a", "i", "t", "n", "hint", "inc", "ev", "chint", "shint", "hd")}
-                                            for r in split_traces(recs)[0][1:7]]})
-
-    # ---- (d'') a second generator configuration: confirmations of two independent transactions only, 3 clients
-    # with depths 1-3 (different requests maturing at the same height, partial reorgs of the later block)
     G2 = dict(Incl="Incl4", ConfTargets="{1, 3}", SpendTargets="{}", MaxRegs=3)
-    files2 = ck.generate(SPEC, "TxNotifierGen", "TxNotifierGen.cfg", 600 if thorough else 200, 14 + 4,
-                         constants=dict(MaxHist=14, **G2, **R), name="gen_indep", timeout=1500)
-    trace4, recs4 = run_exec(ck, "TestVerifC14Replay",
-                             {"VERIF_SCHED": os.path.dirname(files2[0]), "VERIF_NOUTS": 2, "VERIF_MAXREGS": 3,
-                              "VERIF_SAFETY": 3}, "exec_gen_indep")
-    account(ck, recs4)
-    validate_batches(ck, recs4, dict(G2, **R), "a TLC-generated behaviour (independent txs)", "val_gen_indep")
+    # one outpoint, every kind of request for it and for its two spenders
+    G3 = dict(NOuts=1, Incl="Incl1", ConfTargets="{1, 2, 3, 4}", SpendTargets="{1, 2, 3}", MaxRegs=4)
+    T, K, C = want("txnotifier"), want("kinds"), want("catchup")
+    f_gen = gen("TxNotifierGen", "TxNotifierGen.cfg", num, maxhist + 4, "gen", MaxHist=maxhist) if T else None
+    f_gen2 = gen("TxNotifierGen", "TxNotifierGen.cfg", 600 if thorough else 200, 14 + 4, "gen_indep", MaxHist=14, **G2) if T else None
+    f_gen3 = gen("TxNotifierGen", "TxNotifierGen.cfg", 600 if thorough else 120, 18 + 4, "gen_kinds", MaxHist=18, **G3) if K else None
+    f_gen4 = gen("CatchUpGen", "CatchUpGen.cfg", 300 if thorough else 40, 400, "gen_catchup", MaxHist=30) if C else None
 
-    # ---- (d') thorough: the same behaviours with script-only registrations (zero txid / zero outpoint)
-    if thorough:
-        trace3, recs3 = run_exec(ck, "TestVerifC14Replay",
-                                 {"VERIF_SCHED": sched, "VERIF_NOUTS": 2, "VERIF_MAXREGS": 4, "VERIF_SAFETY": 3,
-                                  "VERIF_SCRIPTONLY": 1}, "exec_gen_scriptonly")
-        account(ck, recs3)
-        validate_batches(ck, recs3, dict(R), "a TLC-generated behaviour with script-only requests", "val_gen_scriptonly")
-
-    # ---- (e) free-running seeded driver: safety limit 4, 6 clients, 40 calls
-    runs = 800 if thorough else 120
-    fconsts = dict(Safety=4, MaxRegs=6, **R)
-    trace2, recs2 = run_exec(ck, "TestVerifC14Free",
-                             {"VERIF_RUNS": runs, "VERIF_STEPS": 40, "VERIF_NOUTS": 2, "VERIF_MAXREGS": 6, "VERIF_SAFETY": 4},
-                             "exec_free", timeout=2400)
-    account(ck, recs2)
-    if validate_batches(ck, recs2, fconsts, "a free-running history (safety 4, 6 clients)", "val_free"):
-        corrupt_control(ck, recs2, fconsts, "free")
-    ck.cov["samples"].append({"free": [{k: r[k] for k in ("a", "i", "t", "n", "hint", "inc", "ev", "chint", "shint")}
-                                       for r in split_traces(recs2)[0][1:5]]})
+    try:
+        if C:
+            judge(catchup_directed_judge, catchup_directed_exec(ck))
+        if T or K:
+            judge(free_judge, free_exec(ck, thorough))
+        if C:
+            files = f_gen4.result()
+            judge(catchup_judge, files, catchup_exec(ck, files))
+        if T:
+            judge(indep_judge, G2, replay_exec(ck, f_gen2.result(), "exec_gen_indep", 2, 3))
+        if K:
+            judge(kinds_judge, G3, len(f_gen3.result()), replay_exec(ck, f_gen3.result(), "exec_gen_kinds", 1, 4))
+        if T:
+            judge(gen_judge, replay_exec(ck, f_gen.result(), "exec_gen", 2, 4))
+        for j in judges:
+            j.result()
+        if fut_mc:
+            fut_mc.result()
+    finally:
+        pool.shutdown(wait=True, cancel_futures=True)
 
     ck.cov["rule"] = ("behaviours = TLC -simulate walks of TxNotifierGen (2 outpoints x 2 conflicting spenders = 4 txs, 4 clients, "
-                      "safety limit 3) replayed on the real TxNotifier + bolt HeightHintCache, plus seeded free-running histories "
-                      "(safety limit 4, 6 clients, 40 calls) and the two directed F10 schedules; evaluations = recorded calls; "
+                      "safety limit 3; one outpoint through every kind of request) and of CatchUpGen (backend + dispatcher + "
+                      "HandleMissedBlocks, outages of up to 150 blocks) replayed on the real TxNotifier / interface.go catch-up "
+                      "functions + bolt HeightHintCache, plus seeded free-running histories "
+                      "(safety limit 4, 6 clients, 40 calls) and the directed schedules; evaluations = recorded calls; "
                       "distinct = distinct call sequences in which at least one Confirmed/NegativeConf/Spend/Reorg was delivered")
     ck.cov["trusted_base"] = ["TLC 1.8.0", "CommunityModules Json",
                               "executor: drains every client channel after each call, maps block/tx hashes to model ids, "
                               "answers historical rescans from its own copy of the active chain",
-                              "blocks are synthetic btcutil.Blocks (coinbase + P2WSH spenders), not validated by consensus code"]
+                              "blocks are synthetic btcutil.Blocks (coinbase + P2WSH spenders), not validated by consensus code",
+                              "catch-up executor: scripted ChainConn (headers linked by PrevBlock, reorged blocks kept) that parks "
+                              "each call of HandleMissedBlocks so that every DisconnectTip is observed (TxNotifier height "
+                              "read through an in-package accessor); dispatching around it re-implements the "
+                              "chain.BlockConnected case of bitcoind.go/btcd.go"]
     ck.assumptions += [
         "clients empty their channels between two notifier calls (slow clients / full channels are not modelled)",
         "reorgs stay within the safety limit: a block is disconnected only while the tip stays < Safety below the highest tip seen",
         "callers pass correct height hints (<= the height at which the event is on the active chain, <= tip+1)",
         "a historical rescan answers with the truth about the active chain in [start,end] at the time it is delivered and arrives "
         "before its request matures (DESIGN 10.7 O1)",
-        "Updates (numConfsLeft) channel contents are recorded but not judged; script-only (zero txid/outpoint) requests only in the "
-        "thorough tier (same behaviours, requests keyed by script)",
+        "Updates (numConfsLeft) channel contents are recorded but not judged",
+        "catch-up layer: the backend keeps reorged-out headers (btcd/bitcoind; neutrino's backendStoresReorgs=false path is not "
+        "modelled), it does not move while one HandleMissedBlocks call runs, historical rescans are answered while the notifier's "
+        "view is a prefix of the active chain; block-epoch client queues are covered only through GetClientMissedBlocks",
     ]
     if not repaired:
         ck.assumptions.append("generated and free-running parts: the last subscriber of a request does not cancel while its "
                               "historical rescan is pending (OrphanRescan=FALSE); that class is covered by the directed part (F10)")
+
+
+def replay_exec(ck, files, name, nouts, maxregs):
+    """(c) replay TLC-generated behaviours on the real notifier."""
+    trace, recs = run_exec(ck, "TestVerifC14Replay",
+                           {"VERIF_SCHED": os.path.dirname(files[0]), "VERIF_NOUTS": nouts, "VERIF_MAXREGS": maxregs,
+                            "VERIF_SAFETY": 3}, name)
+    account(ck, recs)
+    return recs
+
+
+def gen_judge(ck, R, recs):
+    # ---- (d) validate
+    if validate_batches(ck, recs, dict(R), "a TLC-generated behaviour", "val_gen"):
+        corrupt_control(ck, recs, dict(R), "gen")
+    ck.cov["samples"].append({"generated": [{k: r[k] for k in SHOW} for r in split_traces(recs)[0][1:7]]})
+
+
+def indep_judge(ck, R, G2, recs):
+    # ---- a second generator configuration: confirmations of two independent transactions only, 3 clients
+    # with depths 1-3 (different requests maturing at the same height, partial reorgs of the later block)
+    validate_batches(ck, recs, dict(G2, **R), "a TLC-generated behaviour (independent txs)", "val_gen_indep")
+
+
+def free_exec(ck, thorough):
+    # ---- (e) free-running seeded driver: safety limit 4, 6 clients, 40 calls
+    # (a third of the runs: two independent txs with depths 2-3; another third: one outpoint and its first spender
+    # through every kind of request; VERIF_KINDS)
+    runs = 900 if thorough else 150
+    trace2, recs2 = run_exec(ck, "TestVerifC14Free",
+                             {"VERIF_RUNS": runs, "VERIF_STEPS": 40, "VERIF_NOUTS": 2, "VERIF_MAXREGS": 6, "VERIF_SAFETY": 4,
+                              "VERIF_KINDS": 1}, "exec_free", timeout=2400)
+    account(ck, recs2)
+    return recs2
+
+
+def free_judge(ck, R, recs2):
+    fconsts = dict(ALLKINDS2, Safety=4, MaxRegs=6, **R)
+    if validate_batches(ck, recs2, fconsts, "a free-running history (safety 4, 6 clients)", "val_free"):
+        corrupt_control(ck, recs2, fconsts, "free", limit=2)
+    ck.cov["samples"].append({"free": [{k: r[k] for k in SHOW if k != "hd"} for r in split_traces(recs2)[0][1:5]]})
+
+
+def kinds_judge(ck, R, G3, nfiles, recs):
+    """Every kind of request for one outpoint and its spenders (TLC-generated)."""
+    consts = dict(G3, **R)
+    if validate_batches(ck, recs, consts, "a TLC-generated behaviour with every kind of request", "val_gen_kinds",
+                        keyprefix="txnotifier-kinds"):
+        corrupt_control(ck, recs, consts, "kinds", limit=2)
+    ck.cov["samples"].append({"kinds": [{k: r[k] for k in SHOW} for r in split_traces(recs)[0][1:6]]})
+    ck.cov.setdefault("parts", {})["kinds"] = dict(generated_behaviours=nfiles, calls=len(recs))
+
+
+CU_ENV = {"VERIF_NOUTS": 1, "VERIF_MAXREGS": 3, "VERIF_SAFETY": 3}
+
+
+def catchup_directed_exec(ck):
+    """Long outages (below / above chainntnfs.ReorgSafetyLimit) with a depth-2 reorg of the notifier's best blocks."""
+    trace, recs = run_exec(ck, "TestVerifC14CatchUp", dict(CU_ENV, VERIF_SCHED=DIRECTED_CU), "exec_catchup_directed")
+    account(ck, recs)
+    return recs
+
+
+def catchup_directed_judge(ck, R, recs):
+    validate_batches(ck, recs, dict(R), "a directed catch-up schedule", "val_catchup_directed",
+                     keyprefix="catchup-directed", **CU_TRACE)
+
+
+def catchup_exec(ck, files):
+    trace, recs = run_exec(ck, "TestVerifC14CatchUp", dict(CU_ENV, VERIF_SCHED=os.path.dirname(files[0])), "exec_catchup")
+    account(ck, recs)
+    return recs
+
+
+def catchup_judge(ck, R, files, recs):
+    if validate_batches(ck, recs, dict(R), "a TLC-generated catch-up behaviour", "val_catchup", keyprefix="catchup", **CU_TRACE):
+        corrupt_control(ck, recs, dict(R), "catchup", extra=cu_controls(), only_extra=True, **CU_TRACE)
+    acts = {}
+    for r in recs:
+        acts[r["a"]] = acts.get(r["a"], 0) + 1
+    ck.cov.setdefault("parts", {})["catchup"] = dict(
+        generated_behaviours=len(files), calls=len(recs), by_action=acts,
+        rewinds=sum(1 for r in recs if r["a"] == "RewindDone"),
+        longest_catch_up=max([len(r["missed"]) for r in recs if r["a"] == "RewindDone"] or [0]))
+    tr = [t for t in split_traces(recs) if any(r["a"] == "RewindStep" for r in t)]
+    if tr:
+        ck.cov["samples"].append({"catchup": [{k: r[k] for k in ("a", "n", "blk", "tip", "ret", "missed", "ev", "chint")}
+                                              for r in tr[0][1:] if r["a"] in ("Deliver", "RewindStep", "RewindDone")][:5]})
